@@ -50,7 +50,7 @@ func (s step) String() string {
 }
 
 var kinds = []string{"request", "request", "request", "request", "withdraw", "withdraw", "withdraw", "withdraw-not-held",
-	"complete", "complete", "deliver", "deliver", "deliver", "fail", "evict", "idle-tick", "setconf", "periodic"}
+	"complete", "complete", "deliver", "deliver", "deliver", "fail", "evict", "idle-tick", "idle-tick", "setconf", "periodic", "avail", "avail"}
 
 func isClosed(ch <-chan struct{}) bool {
 	select {
@@ -181,10 +181,15 @@ func run(rt *rapid.T, npieces int, idleRate uint32, steps []step) (fail string, 
 					return fmt.Sprintf("%s: piece %d is not complete, yet no channel to wait on was returned", s, i) + describe(), labels, hist
 				}
 				if done != nil {
+					pendingNotice := false
 					for _, q := range queued {
 						if h, ok := q.(peer.TorHave); ok && int(h.Index) == i && h.Have {
 							labels["request-races-with-completion"] = true
+							pendingNotice = true
 						}
+					}
+					if complete && !pendingNotice {
+						return fmt.Sprintf("%s: piece %d is verified and its completion has already been processed, yet the caller was handed a channel to wait on: nothing will ever close it (lost wake-up)", s, i) + describe(), labels, hist
 					}
 					known := false
 					for _, w := range waiters {
@@ -303,6 +308,12 @@ func run(rt *rapid.T, npieces int, idleRate uint32, steps []step) (fail string, 
 			}()
 			if pv != nil {
 				return fmt.Sprintf("periodicRequest panicked: %v", pv) + describe(), labels, hist
+			}
+		case "avail":
+			// some peer advertises the piece (idle prefetch only picks available pieces)
+			hist = append(hist, s.String())
+			if f := handle(peer.TorPeerHave{Index: uint32(i), Have: true}); f != "" {
+				return f, labels, hist
 			}
 		case "setconf":
 			hist = append(hist, s.String())
